@@ -619,7 +619,14 @@ class CPreProcessor:
             else:
                 return t.val
 
-        string_value = '"{}"'.format(" ".join(map(escape, snippet)))
+        # White space between the argument's tokens becomes one space,
+        # no space is added where there was none (C11 6.10.3.2p2):
+        parts = []
+        for t in snippet:
+            if parts and t.space:
+                parts.append(" ")
+            parts.append(escape(t))
+        string_value = '"{}"'.format("".join(parts))
         return CToken("STRING", string_value, hash_token.space, False, loc)
 
     def concat(self, lhs, rhs):
